@@ -78,3 +78,19 @@ Lemma text_split_lost :
 Proof.
   split; [vm_compute; reflexivity|]. split; intros [|]; vm_compute; repeat split; reflexivity.
 Qed.
+
+(* ---- protocol violations the decoder does NOT reject (both variants): reserved bits, reserved opcodes,
+   control frames longer than 125 bytes.  Frames: masked, mask 1 2 3 4. ---- *)
+Definition run2 (fx : bool) (s : list Z) : list callres :=
+  fst (fst (ws_run fx ws_init (mkIO s [RAvail 4096; RAvail 4096; RAvail 4096; RAvail 4096; RAvail 4096; RAvail 4096]) [300; 300])).
+
+(* binary frame "AB" with RSV1 set (0xC2): delivered as data *)
+Lemma rsv_bits_accepted : forall fx, run2 fx [194; 130; 1; 2; 3; 4; 64; 64] = [CRet 2 None [65; 66]; CRet (-1) (Some EAGAIN) []].
+Proof. intros [|]; vm_compute; reflexivity. Qed.
+(* data frame with the reserved opcode 3: payload dropped, no error *)
+Lemma reserved_opcode_accepted : forall fx, run2 fx [131; 130; 1; 2; 3; 4; 64; 64] = [CRet (-1) (Some EAGAIN) []; CRet (-1) (Some EAGAIN) []].
+Proof. intros [|]; vm_compute; reflexivity. Qed.
+(* ping with a 126-byte payload (16-bit length form): consumed, no error *)
+Lemma long_control_accepted : forall fx,
+  run2 fx ([137; 254; 0; 126; 1; 2; 3; 4] ++ repeat 7 126) = [CRet (-1) (Some EAGAIN) []; CRet (-1) (Some EAGAIN) []].
+Proof. intros [|]; vm_compute; reflexivity. Qed.
